@@ -123,6 +123,20 @@ theorem from_slice_window (first : Nat) (slice : Bytes) (e : Exts) (n : Nat) (re
     ∃ pre, slice = pre ++ rest ∧ pre.length = e.headerLen :=
   fromSlice_window first slice e n rest h
 
+/-- The lax copy of the decoder (`from_slice_lax`) agrees with the strict one on every input: the
+    same struct, number and rest when the strict one succeeds; when it fails, the strict error value
+    is the one reported (next to what was decoded so far and the layer); and it never panics. -/
+theorem lax_extends_strict (first : Nat) (slice : Bytes) :
+    (∀ e n rest, Exts.fromSlice first slice = .ok (e, n, rest) →
+      Exts.fromSliceLax first slice = .ok (e, n, rest, none)) ∧
+    (∀ er, Exts.fromSlice first slice = .error (.err er) →
+      ∃ e n rest layer, Exts.fromSliceLax first slice = .ok (e, n, rest, some (er, layer))) ∧
+    (∃ r, Exts.fromSliceLax first slice = .ok r) := by
+  have h := lax_agrees first slice
+  refine ⟨fun e n rest hs => ?_, fun er hs => ?_, fromSliceLax_no_panic first slice⟩
+  · rw [hs] at h; exact h
+  · rw [hs] at h; exact h
+
 /-- The property's first two sentences in one statement: link any well-formed struct to a number
     `n` that is not an extension header number, serialise it from the returned first number, append
     any tail and decode: the RFC 8200 ordered bytes decode to the same struct, `n` and the tail. -/
